@@ -146,8 +146,9 @@ def cases_for(ctx, deep):
             for s in [extra[i] for i in sorted(rng.choice(len(extra), min(len(extra), 6), replace=False))] if extra else []:
                 d = defs[int(rng.integers(0, len(defs)))]
                 cases.append({'class': cls, 'size': list(s), 'deform': [d[0], d[1]]})
-    # documented-but-unsupported sizes (where known findings live)
-    for cls in ('Color488Code', 'Color666ToricCode'):
+    # documented-but-unsupported sizes (where known findings live); the rectangular sizes of
+    # Color488Code are ordinary supported sizes (table sizes above) since the repair of its logicals
+    for cls in ('Color666ToricCode',):
         for s in ((1, 2), (2, 1), (2, 3), (3, 2)):
             cases.append({'class': cls, 'size': list(s), 'deform': [None, {}], 'nonsquare': True})
     # inside the supported family, beyond the table bound: a known rank deficiency
